@@ -341,7 +341,7 @@ func arpaCase(op, s string) string {
 }
 
 func genC04(rng *rand.Rand, tier string) (cases []string) {
-	n := 5000
+	n := 12000
 	if tier == "thorough" {
 		n = 300000
 	}
@@ -385,7 +385,7 @@ func genC04(rng *rand.Rand, tier string) (cases []string) {
 }
 
 func genC05(rng *rand.Rand, tier string) (cases []string) {
-	n := 6000
+	n := 12000
 	maxLen := 3
 	if tier == "thorough" {
 		n = 300000
